@@ -476,4 +476,63 @@ theorem redoWalk_complete (db : DB) (seen : List Id) (x : Id) (ids : List Id) (h
       rw [hl]
       exact ih h.1 hne' _
 
+
+/-! ### BlockInCurrentChain -/
+
+theorem walkDown_mono_mem (db : DB) (fuel : Nat) (cur x : Id) (h : x ∈ db.walkDown fuel cur) :
+    x ∈ db.walkDown (fuel + 1) cur := by
+  induction fuel generalizing cur with
+  | zero => simp [DB.walkDown] at h
+  | succ n ih =>
+    unfold DB.walkDown at h ⊢
+    by_cases hl : (db.link cur == "") = true
+    · simp only [hl, if_true] at h ⊢; exact h
+    · simp only [hl, Bool.false_eq_true, if_false, List.mem_cons] at h ⊢
+      rcases h with h | h
+      · exact Or.inl h
+      · exact Or.inr (ih _ h)
+
+/-- the block `BlockInCurrentChain` returns lies on the ancestry of the start block -/
+theorem blockInChainAux_on_walk (db : DB) (h0 : db.numOf? "" = none) (target fuel : Nat) (cur : Id) (curNum : Nat)
+    (h : (db.blockInChainAux target fuel cur curNum).id ≠ "") :
+    (db.blockInChainAux target fuel cur curNum).id ∈ db.walkDown (fuel + 1) cur := by
+  induction fuel generalizing cur curNum with
+  | zero => simp [DB.blockInChainAux, Ref.empty] at h
+  | succ n ih =>
+    unfold DB.blockInChainAux at h ⊢
+    simp only at h ⊢
+    cases hn : db.numOf? (db.link cur) with
+    | none => rw [hn] at h; simp [Ref.empty] at h
+    | some pn =>
+      rw [hn] at h
+      simp only at h ⊢
+      have hlne : (db.link cur == "") = false := by
+        cases hl : (db.link cur == "") with
+        | false => rfl
+        | true => rw [beq_iff_eq.mp hl, h0] at hn; cases hn
+      have hwalk : db.walkDown (n + 1 + 1) cur = cur :: db.walkDown (n + 1) (db.link cur) := by
+        conv => lhs; unfold DB.walkDown
+        simp [hlne]
+      rw [hwalk]
+      obtain ⟨w', hw'⟩ := walkDown_head db n (db.link cur)
+      by_cases h1 : (pn == target) = true
+      · simp only [h1, if_true]
+        rw [hw']; simp
+      · simp only [h1, Bool.false_eq_true, if_false] at h ⊢
+        by_cases h2 : pn < target
+        · simp only [h2, if_true]; simp
+        · simp only [h2, if_false] at h ⊢
+          exact List.mem_cons_of_mem _ (ih _ _ h)
+
+theorem blockInChain_on_walk (db : DB) (h0 : db.numOf? "" = none) (start : Ref) (target : Nat)
+    (h : (db.blockInChain start target).id ≠ "") :
+    (db.blockInChain start target).id ∈ db.walkDown (db.entries.length + 2) start.id := by
+  unfold DB.blockInChain at h ⊢
+  by_cases hs : (start.num == target) = true
+  · simp only [hs, if_true]
+    obtain ⟨w, hw⟩ := walkDown_head db (db.entries.length + 1) start.id
+    rw [hw]; simp
+  · simp only [hs, Bool.false_eq_true, if_false] at h ⊢
+    exact blockInChainAux_on_walk db h0 _ _ _ _ h
+
 end BstreamVerif.ForkDB
